@@ -473,6 +473,46 @@ func ruleTypeEqualFields(c *Ctx) []Obligation {
 			obs = append(obs, bad(R, con, c.Pos(f.Pos()), fmt.Sprintf("Equal does not look at %s of both types: two types that differ only there compare equal, and the union resolver drops the second as already listed", f.Name())))
 		}
 	}
+	// the comparers Equal writes for the parts go-cmp cannot look into: equal means every compared table is equal —
+	// a result that is an || of comparisons lets one equal table stand for all
+	for n, an := range eq.AnonFuncs {
+		if an.Signature.Results().Len() != 1 || !isBoolType(an.Signature.Results().At(0).Type()) || len(an.Params) != 2 {
+			continue
+		}
+		con := fmt.Sprintf("Equal: comparer #%d answers equal only if all the parts it compares are equal", n+1)
+		verdict := ""
+		for _, b := range an.Blocks {
+			rt, isR := b.Instrs[len(b.Instrs)-1].(*ssa.Return)
+			if !isR || len(rt.Results) != 1 {
+				continue
+			}
+			var orIn func(v ssa.Value, depth int) bool
+			orIn = func(v ssa.Value, depth int) bool {
+				if depth > 6 {
+					return false
+				}
+				if p, isP := v.(*ssa.Phi); isP {
+					if p.Comment == "||" {
+						return true
+					}
+					for _, e := range p.Edges {
+						if orIn(e, depth+1) {
+							return true
+						}
+					}
+				}
+				return false
+			}
+			if orIn(rt.Results[0], 0) {
+				verdict = c.InstrPos(rt)
+			}
+		}
+		if verdict != "" {
+			obs = append(obs, bad(R, con, verdict, "the answer is an || of comparisons: two tables that agree in one part and differ in another are called equal"))
+		} else {
+			obs = append(obs, ok(R, con, c.Pos(an.Pos()), "no || on the way to the answer"))
+		}
+	}
 	return obs
 }
 
